@@ -137,6 +137,11 @@ type Case struct {
 	// Collect / ForceFlush / Shutdown then report that error, but the sums of
 	// the counters are collected all the same and must not be lost.
 	FailCB int `json:"fail_cb,omitempty"`
+	// Lazy: instruments are not created up front; every Add obtains the meter
+	// and the instrument afresh (mp.Meter(scope).Int64Counter(name)...), so the
+	// FIRST use of a meter / an instrument happens concurrently on several
+	// goroutines. The SDK hands out the same stream for the same identity.
+	Lazy bool `json:"lazy,omitempty"`
 }
 
 func kvI(k string, v int64) vk.KV   { return vk.KV{K: vk.Str(k), T: "int", I: v} }
@@ -308,6 +313,7 @@ func gen(t *rapid.T) Case {
 	c.Broken = rapid.SampledFrom([]string{"", "", "", "", "", "first", "last"}).Draw(t, "broken_reader")
 	genSumView(t, &c)
 	c.FailCB = rapid.SampledFrom([]int{0, 0, 0, 0, 0, 1, 2, 3}).Draw(t, "failing_callback")
+	c.Lazy = rapid.IntRange(0, 3).Draw(t, "lazy_instruments") == 0
 	return c
 }
 
@@ -336,6 +342,7 @@ func genSeq(t *rapid.T) Case {
 	c.Broken = rapid.SampledFrom([]string{"", "", "", "", "first", "last"}).Draw(t, "broken_reader")
 	genSumView(t, &c)
 	c.FailCB = rapid.SampledFrom([]int{0, 0, 0, 0, 1, 2, 3}).Draw(t, "failing_callback")
+	c.Lazy = rapid.IntRange(0, 5).Draw(t, "lazy_instruments") == 0
 	return c
 }
 
@@ -722,11 +729,36 @@ func runOnce(c Case) ([]vk.Violation, map[string]bool) {
 		}
 	}
 	mp := sdkmetric.NewMeterProvider(opts...)
-	meters := []metric.Meter{mp.Meter(scopeName(0)), mp.Meter(scopeName(1))}
+	var meters []metric.Meter
+	if !c.Lazy || c.FailCB != 0 { // (lazy: the meters' first use is concurrent too)
+		meters = []metric.Meter{mp.Meter(scopeName(0)), mp.Meter(scopeName(1))}
+	}
 	adders := make([]adder, len(c.Insts))
 	for ii, in := range c.Insts {
 		name := instName(ii)
 		w.instByName[name] = ii
+		if c.Lazy {
+			sc, kind := scopeName(in.Scope&1), in.Kind
+			adders[ii] = func(ctx context.Context, u int64, o ...metric.AddOption) {
+				m := mp.Meter(sc)
+				switch kind {
+				case "i64c":
+					x, _ := m.Int64Counter(name)
+					x.Add(ctx, u, o...)
+				case "f64c":
+					x, _ := m.Float64Counter(name)
+					x.Add(ctx, float64(u)/8, o...)
+				case "i64u":
+					x, _ := m.Int64UpDownCounter(name)
+					x.Add(ctx, u, o...)
+				default:
+					x, _ := m.Float64UpDownCounter(name)
+					x.Add(ctx, float64(u)/8, o...)
+				}
+			}
+			classes["instruments_obtained_at_every_add(concurrent_first_use)"] = true
+			continue
+		}
 		m := meters[in.Scope&1]
 		var err error
 		switch in.Kind {
